@@ -247,11 +247,13 @@ def actualFields (legacy : Bool) (e : List Field) (idx : List Nat) : List Field 
   if legacy then e else idx.filterMap (e[·]?)
 
 /-- `Reader.__call__(statement, entry)` for a non-`None` entry (`layout.Entry` is a 2-tuple: always
-truthy). In the re-ordered branch `actual` is a tuple of fields, which never `==` a schema class, so
-the `actual == expected` shortcut of `_cast` is not taken there. -/
-def readerCall {α : Type} (km : Kind → Kind → Bool) (cast : Kind → α → Option α) (legacy : Bool) (q e : List Field) (data : Tab α) :
-    Outcome α :=
-  match matchEntry (q.map (·.name)) (e.map (·.name)) with
+truthy), **given** the answer `m` of `self._match_entry(statement.schema, entry.schema)` — which comes out of
+a `functools.lru_cache` (see `ForML.Model.EntryMemo`: the reader over a history of requests). In the
+re-ordered branch `actual` is a tuple of fields, which never `==` a schema class, so the
+`actual == expected` shortcut of `_cast` is not taken there. -/
+def readerCallWith {α : Type} (km : Kind → Kind → Bool) (cast : Kind → α → Option α) (legacy : Bool) (q e : List Field)
+    (data : Tab α) (m : Bool × Option (List Nat)) : Outcome α :=
+  match m with
   | (false, _) => .missing                                   -- if not complete: raise MissingError
   | (true, some (i :: is)) =>                                -- `if indices` (a non-empty tuple)
     match data.takeColumns ((i :: is).map Int.ofNat) with    -- entry.data.take_columns(indices)
@@ -264,5 +266,11 @@ def readerCall {α : Type} (km : Kind → Kind → Bool) (cast : Kind → α →
     match castStep km cast (decide (e = q)) q e data with
     | none => .castError
     | some out => .data out
+
+/-- `Reader.__call__(statement, entry)` with the match computed afresh (what an empty cache does; by
+`C15_reader_history` this is what every call returns whatever the reader has served before). -/
+def readerCall {α : Type} (km : Kind → Kind → Bool) (cast : Kind → α → Option α) (legacy : Bool) (q e : List Field) (data : Tab α) :
+    Outcome α :=
+  readerCallWith km cast legacy q e data (matchEntry (q.map (·.name)) (e.map (·.name)))
 
 end ForML.Entry
